@@ -8,7 +8,7 @@ import (
 
 func init() {
 	sim.Register(&sim.Prop{
-		ID: "C09", Run: runC09, QuickRuns: 80000, ThoroughRuns: 1500000,
+		ID: "C09", Run: runC09, QuickRuns: 80000, ThoroughRuns: 500000,
 		Rule:       "Each run is one of: (a) a bufiox reader history in which every slice returned by Next/Peek is retained and re-verified after every later operation, co-tenant step and pool flush until the next Release; (b) a bufiox writer history with late, partial and repeated fills of open regions up to the Flush; (c) skip-decoder results retained until their horizon. Caller memory (bytes-reader slice, WriteBinary payloads, bytes-writer initial slice) is registered with the allocator shim and compared with a snapshot after every operation. Allocator: ledger+poison, fence (guard pages, PROT_NONE on free) or the real mcache, always with the adversarial co-tenant.",
 		Components: realComponents,
 		Probes: []string{"slice_retained_across_growth", "slice_retained_across_3_growths", "release_with_unread_tail", "region_filled_after_growth",
